@@ -377,3 +377,159 @@ Lemma negative_zero_dropped :
                  /\ f_dp ch = false
                  /\ option_map (fun e => d_value (e_dp e)) (lookup_id (entries db') 0) = Some (VF64 0).
 Proof. eexists. eexists. vm_compute. repeat split. Qed.
+
+(* ---------- actuation through the kuksa.val.v2 handlers (C09 at the handler) ---------- *)
+(* the batch the handler hands to the core pairs every request element's OWN identifier with its OWN value, in
+   request order: element k of the core batch is (the id element k names, the value element k carries) *)
+Definition names_pair (db : database) (x : sig_ref * option (option value)) (c : Z * value) : Prop :=
+  v2_resolve_actuator db (fst x) = inl (fst c) /\ exists w, snd x = Some w /\ snd c = from_wire w.
+
+Theorem v2_batch_resolve_pairs db l cs :
+  v2_batch_resolve db l = inl cs -> Forall2 (names_pair db) l cs.
+Proof.
+  revert cs. induction l as [|[s v] r IH]; intros cs; cbn [v2_batch_resolve].
+  - intros H; inversion H. constructor.
+  - destruct (v2_resolve_actuator db s) as [id|code] eqn:R; [|discriminate].
+    destruct v as [w|]; [|discriminate].
+    destruct (v2_batch_resolve db r) as [rest|code]; [|discriminate].
+    intros H; inversion H; subst. constructor.
+    + split; [exact R|]. exists w. split; reflexivity.
+    + apply IH. reflexivity.
+Qed.
+
+Lemma v2_resolve_actuator_code db s code : v2_resolve_actuator db s = inr code -> code <> OK.
+Proof.
+  unfold v2_resolve_actuator. destruct s as [| |path|id]; try (intros H; inversion H; subst; discriminate).
+  destruct (lookup_path (path_to_id db) path); intros H; inversion H; subst; discriminate.
+Qed.
+
+Lemma v2_batch_resolve_code db l code : v2_batch_resolve db l = inr code -> code <> OK.
+Proof.
+  induction l as [|[s v] r IH]; cbn [v2_batch_resolve]; [discriminate|].
+  destruct (v2_resolve_actuator db s) as [id|c] eqn:R.
+  - destruct v as [w|]; [|intros H; inversion H; subst; discriminate].
+    destruct (v2_batch_resolve db r) as [rest|c]; [discriminate|].
+    intros H; inversion H; subst. apply IH. reflexivity.
+  - intros H; inversion H; subst. apply (v2_resolve_actuator_code _ _ _ R).
+Qed.
+
+Lemma act_status_not_ok e : act_status e <> OK.
+Proof. destruct e; discriminate. Qed.
+
+(* a served BatchActuate is the core batch of exactly those pairs; a refused one changes nothing *)
+Theorem v2_batch_actuate_served st p l st' :
+  v2_batch_actuate st p l = (st', RStatus OK) ->
+  exists cs, Forall2 (names_pair (st_db st)) l cs /\ batch_actuate st p cs = (st', None).
+Proof.
+  unfold v2_batch_actuate. destruct (v2_batch_resolve (st_db st) l) as [cs|code] eqn:R.
+  - destruct (batch_actuate st p cs) as [st1 [e|]] eqn:B.
+    + intros H; inversion H; subst. exfalso. eapply act_status_not_ok; eassumption.
+    + intros H; inversion H; subst. exists cs. split; [apply v2_batch_resolve_pairs; exact R|exact B].
+  - intros H; inversion H; subst. exfalso. apply (v2_batch_resolve_code _ _ _ R). reflexivity.
+Qed.
+
+Theorem v2_batch_actuate_refused_no_effect st p l st' c :
+  v2_batch_actuate st p l = (st', RStatus c) -> c <> OK -> st' = st.
+Proof.
+  unfold v2_batch_actuate. destruct (v2_batch_resolve (st_db st) l) as [cs|code].
+  - destruct (batch_actuate st p cs) as [st1 [e|]] eqn:B.
+    + intros H _; inversion H; subst. apply (batch_all_or_nothing _ _ _ _ _ B).
+    + intros H N; inversion H; subst. exfalso; apply N; reflexivity.
+  - intros H _; inversion H; reflexivity.
+Qed.
+
+(* a served Actuate is the core actuate of the id its identifier names, value unchanged *)
+Theorem v2_actuate_served st p s v st' :
+  v2_actuate st p s v = (st', RStatus OK) ->
+  exists id w, v2_resolve_actuator (st_db st) s = inl id /\ v = Some w /\
+               actuate st p id (from_wire w) = (st', None).
+Proof.
+  unfold v2_actuate. destruct v as [w|]; [|intros H; inversion H].
+  assert (G : match v2_resolve_actuator (st_db st) s with
+              | inr code => (st, RStatus code)
+              | inl id => let '(st1, r) := actuate st p id (from_wire w) in
+                          (st1, RStatus (match r with None => OK | Some e => act_status e end))
+              end = (st', RStatus OK) ->
+              exists id w0, v2_resolve_actuator (st_db st) s = inl id /\ Some w = Some w0 /\
+                            actuate st p id (from_wire w0) = (st', None)).
+  { destruct (v2_resolve_actuator (st_db st) s) as [id|code] eqn:R.
+    - destruct (actuate st p id (from_wire w)) as [st1 [e|]] eqn:A.
+      + intros H; inversion H; subst. exfalso. eapply act_status_not_ok; eassumption.
+      + intros H; inversion H; subst. exists id, w. repeat split. exact A.
+    - intros H; inversion H; subst. exfalso. apply (v2_resolve_actuator_code _ _ _ R). reflexivity. }
+  destruct s; exact G.
+Qed.
+
+(* ---------- kuksa.val.v1 Subscribe with several entries: the union of the fields (C07 at the handler) ---------- *)
+Definition fields_le (a b : fields) : Prop :=
+  (f_dp a = true -> f_dp b = true) /\ (f_target a = true -> f_target b = true) /\ (f_unit a = true -> f_unit b = true).
+Definition covered (acc : list (Z * fields)) (id : Z) (fl : fields) : Prop :=
+  exists f, In (id, f) acc /\ fields_le fl f.
+
+Lemma fields_le_refl a : fields_le a a.
+Proof. repeat split; auto. Qed.
+Lemma fields_le_union_l a b : fields_le a (fields_union a b).
+Proof. unfold fields_le, fields_union; cbn. repeat split; intros ->; reflexivity. Qed.
+Lemma fields_le_union_r a b : fields_le b (fields_union a b).
+Proof. unfold fields_le, fields_union; cbn. repeat split; intros ->; apply orb_true_r. Qed.
+Lemma fields_le_trans a b c : fields_le a b -> fields_le b c -> fields_le a c.
+Proof. intros (A1 & A2 & A3) (B1 & B2 & B3). repeat split; auto. Qed.
+
+Lemma merge_covers_new id fl acc : covered (merge_entry id fl acc) id fl.
+Proof.
+  induction acc as [|[i f] r IH]; cbn [merge_entry].
+  - exists fl. split; [left; reflexivity|apply fields_le_refl].
+  - destruct (i =? id) eqn:E.
+    + apply Z.eqb_eq in E. subst i. exists (fields_union f fl). split; [left; reflexivity|apply fields_le_union_r].
+    + destruct (id <? i).
+      * exists fl. split; [left; reflexivity|apply fields_le_refl].
+      * destruct IH as (g & Hin & Hle). exists g. split; [right; exact Hin|exact Hle].
+Qed.
+
+Lemma merge_covers_old id fl acc j g : covered acc j g -> covered (merge_entry id fl acc) j g.
+Proof.
+  induction acc as [|[i f] r IH]; cbn [merge_entry]; intros (h & Hin & Hle).
+  - destruct Hin.
+  - destruct (i =? id) eqn:E.
+    + destruct Hin as [Heq|Hin].
+      * inversion Heq; subst. exists (fields_union h fl). split; [left; reflexivity|].
+        apply (fields_le_trans _ _ _ Hle). apply fields_le_union_l.
+      * exists h. split; [right; exact Hin|exact Hle].
+    + destruct (id <? i).
+      * exists h. split; [right; exact Hin|exact Hle].
+      * destruct Hin as [Heq|Hin].
+        -- inversion Heq; subst. exists h. split; [left; reflexivity|exact Hle].
+        -- destruct (IH (ex_intro _ h (conj Hin Hle))) as (h' & Hin' & Hle'). exists h'. split; [right; exact Hin'|exact Hle'].
+Qed.
+
+Lemma fold_merge_covers es : forall acc,
+  (forall j g, covered acc j g -> covered (fold_left (fun a ie => merge_entry (fst ie) (snd ie) a) es acc) j g) /\
+  (forall id f, In (id, f) es -> covered (fold_left (fun a ie => merge_entry (fst ie) (snd ie) a) es acc) id f).
+Proof.
+  induction es as [|[i f] r IH]; intros acc; cbn [fold_left].
+  - split; [auto|intros id f []].
+  - destruct (IH (merge_entry i f acc)) as (Hold & Hnew). cbn [fst snd] in *. split.
+    + intros j g C. apply Hold. apply merge_covers_old. exact C.
+    + intros id f0 [Heq|Hin].
+      * inversion Heq; subst. apply Hold. apply merge_covers_new.
+      * apply Hnew. exact Hin.
+Qed.
+
+(* every signal an entry of the request selects is subscribed with at least that entry's fields, whatever the
+   other entries of the request say about it *)
+Theorem v1_sub_all_union st p : forall l acc es,
+  v1_sub_all st p l acc = inl es ->
+  (forall j g, covered acc j g -> covered es j g) /\
+  (forall path fl sel id f, In (path, fl) l -> v1_sub_entries st p path fl = inl sel -> In (id, f) sel ->
+                            covered es id f).
+Proof.
+  induction l as [|[path fl] r IH]; intros acc es; cbn [v1_sub_all].
+  - intros H; inversion H; subst. split; [auto|intros ? ? ? ? ? []].
+  - destruct (v1_sub_entries st p path fl) as [sel0|code] eqn:SE; [|discriminate].
+    intros H. destruct (IH _ _ H) as (Hold & Hnew).
+    destruct (fold_merge_covers sel0 acc) as (Fold & Fnew). split.
+    + intros j g C. apply Hold. apply Fold. exact C.
+    + intros path' fl' sel id f [Heq|Hin] SE' Hsel.
+      * inversion Heq; subst. rewrite SE in SE'. inversion SE'; subst. apply Hold. apply Fnew. exact Hsel.
+      * eapply Hnew; eassumption.
+Qed.
